@@ -180,6 +180,8 @@ def consume(gen, case, on_abandon=None):
 
 
 def build(case, flt):
+    if case.get("kill") is not None:
+        flt.kill_at = (case.get("base", 0) + case["kill"],)
     if case.get("wrap"):
         from coba.multiprocessing import CobaMultiprocessor
         return CobaMultiprocessor(flt, case["n"], case["m"])
@@ -187,7 +189,7 @@ def build(case, flt):
     return Multiprocessor(flt, case["n"], case["m"])
 
 
-def run_scheduled(case, prefix=None, mp=None):
+def run_scheduled(case, prefix=None, mp=None, chooser=None):
     """ONE call of the real Multiprocessor.filter under the controlled scheduler; -> dict(outs, outcome, trace, calls, …).
     `mp` = an already used Multiprocessor object (histories of calls on the same object)."""
     from props import c08_sched as S, c08_filters as FL
@@ -196,7 +198,8 @@ def run_scheduled(case, prefix=None, mp=None):
     from coba.context import CobaContext, NullLogger, DiskCacher   # noqa
     sc = case.get("sched") or {}
     rng = Rng(sc.get("seed", 0), "c08-sched") if not sc.get("det") else None
-    chooser = S.PolicyChooser(rng, sc.get("policy"), prefix if prefix is not None else sc.get("prefix"))
+    if chooser is None:
+        chooser = S.PolicyChooser(rng, sc.get("policy"), prefix if prefix is not None else sc.get("prefix"))
     sched = S.Sched(chooser, step_limit=6000 + 400 * len(case["items"]), wall=25.0)
     sched.none_code = NONE_CODE if has_none(case) else None
     sched.register_main()
@@ -210,13 +213,17 @@ def run_scheduled(case, prefix=None, mp=None):
             mp = build(case, FL.SpecFilter(full_table(case)))
         if not case.get("wrap"):
             sched.np_probe = lambda: getattr(mp, "_n_procs", None)
+        import contextlib, io
         gen = mp.filter(make_items(case))
-        try:
-            outs, outcome = consume(gen, case, on_abandon=lambda: sched.act("cAbandon"))
-        except S.Hang as h:
-            outs, outcome = None, {"kind": "hang", "reason": str(h.reason)}
+        with (contextlib.redirect_stdout(io.StringIO()) if case.get("kill") is not None else contextlib.nullcontext()):
+            try:
+                outs, outcome = consume(gen, case, on_abandon=lambda: sched.act("cAbandon"))
+            except S.Hang as h:
+                outs, outcome = None, {"kind": "hang", "reason": str(h.reason)}
         if outcome["kind"] != "hang":
             sched.act("mDone")
+        if hasattr(chooser, "finish"):
+            chooser.finish(sched)
     finally:
         cpm.spawn_context, cpm.MyProcessLine, cpm.ThreadLine = saved
         sched.shutdown()
@@ -396,6 +403,13 @@ def judge(case, run):
     if kind in ("closed", "close-raised"):
         if kind == "close-raised":
             fails.append(F("B", "abandoning the output raised %s(%s) (%s)" % (oc["type"], oc["msg"], desc), "abandon-raises"))
+    elif case.get("kill") is not None and not inprocess(case) and any(a["a"] == "wKilled" for a in (run.get("trace") or [{"a": "wKilled"}])):
+        # a worker process was killed while it handled an item: the statement still asks for every output or an error
+        if kind == "ok" and exp - got:
+            fails.append(F("B", "a worker process was killed (exit code -9) while handling item %d: the call returned normally with %r, "
+                           "the outputs %r are missing and no error is raised (%s)" % (case["kill"], outs, dict(exp - got), desc), "worker-killed-item-lost"))
+        elif kind == "raised" and not rs:
+            pass        # raising would be the acceptable reaction
     elif not rs and ups:
         if kind != "raised" or oc.get("type") != "CobaException" or "pickle" not in (oc.get("msg") or ""):
             fails.append(F("B", "item(s) %s cannot be pickled, the loader fails, but the call ended with %s %r instead of raising the "
@@ -669,6 +683,8 @@ class C08(Property):
             case["buffer"] = True          # one mutable object, mutated and yielded again for every item
         if rng.chance(0.1):
             case["wrap"] = True
+        if rng.chance(0.02) and items and not case.get("wrap"):
+            case["kill"] = rng.below(len(items))       # the worker process handling this item is killed (fault outside "the filter raises")
         if rng.chance(0.12) and items and not case.get("buffer"):
             case["head"] = rng.choice(["None", "None", "''", "[]", "False", "0"])
             if rng.chance(0.5):
@@ -850,6 +866,9 @@ class C08(Property):
             for pol in ("uniform", "loader-slow"):
                 cs.append({"mode": "sched", "n": n, "m": m, "items": items, "abandon": None, "sched": P(pol)})
         cs.append({"mode": "real", "n": 2, "m": 1, "items": [dict(one(i), unpick=(i == 2)) for i in range(5)], "abandon": None})
+        # a worker process is killed while it handles an item (SIGKILL / OOM): recorded finding C08-F5
+        for n, m, k in ((2, 0, 1), (1, 2, 1), (2, 1, 0)):
+            cs.append({"mode": "sched", "n": n, "m": m, "items": [one(i) for i in range(4)], "abandon": None, "kill": k, "sched": P("uniform")})
         # falsy values at the head of the stream, and the empty stream, through Multiprocessor and through CobaMultiprocessor
         gone = lambda v: {"outs": [v], "err": None, "gen": True}
         for n, m in ((1, 0), (2, 0), (1, 2)):
@@ -916,7 +935,7 @@ class C08(Property):
     def verdict(self, case, run, driver, mode):
         fails = judge(case, run)
         model = None
-        if driver is not None and not fails and mode != "real":
+        if driver is not None and not fails and mode != "real" and case.get("kill") is None:
             afails, model = correspond(case, run, driver)
             fails += afails
         rs = raising(case)
@@ -933,6 +952,8 @@ class C08(Property):
             tags.append("shape:fewer-items-than-processes")
         if case["m"] > 0 and case["items"] and len(case["items"]) % case["m"] == 0:
             tags.append("shape:multiple-of-m")
+        if case.get("kill") is not None:
+            tags.append("fault:worker-killed")
         if case.get("head") and case["items"]:
             tags.append("head:%s:%s" % (case["head"], "wrap" if case.get("wrap") else "plain"))
         if case.get("buffer"):
@@ -998,8 +1019,62 @@ class C08(Property):
             agg["tags"].append("wrap:CobaMultiprocessor")
         return agg
 
+    def evaluate_por(self, case, driver):
+        """COMPLETE enumeration of the schedules of one configuration up to commutation of independent steps: stateless DFS
+        with sleep sets over the independence table `Coba.C08.indep` (sound by theorem `step_comm` / `swap_adjacent`: every
+        schedule is equivalent, by swapping adjacent independent steps, to an enumerated one and reaches the same state)"""
+        from props import c08_sched as S
+        budget = case.get("budget", 2000)
+        base = dict(case, mode="sched", sched={"det": True})
+        frames, runs, pruned, complete, agg, pairs = [], 0, 0, False, None, []
+        while runs < budget:
+            ch = S.PorChooser(frames)
+            run = run_scheduled(base, chooser=ch)
+            runs += 1
+            for pr in ch.pairs:
+                if len(pairs) < 150:
+                    pairs.append(pr)
+            if ch.pruned:
+                pruned += 1
+            else:
+                out = self.verdict(base, run, driver, "sched")
+                if agg is None or out["fails"]:
+                    agg = out
+                if out["fails"]:
+                    sched_desc = [f["chosen"] for f in frames][:60]
+                    out["fails"] = [dict(f, what=f["what"] + " [schedule %s]" % sched_desc) for f in out["fails"]]
+                    break
+            while frames:
+                fr = frames[-1]
+                if fr["chosen"] is not None:
+                    fr["done"][fr["chosen"]] = fr["seg"] or []
+                free = [nm for nm in fr["runnable"] if nm not in fr["done"] and nm not in fr["sleep"]]
+                if free:
+                    fr["chosen"], fr["seg"] = free[0], None
+                    break
+                frames.pop()
+            if not frames:
+                complete = True
+                break
+        if agg is None:
+            agg = {"fails": [], "tags": [], "impl": {}, "model": None}
+        if driver is not None and pairs and not agg["fails"]:
+            strip = lambda a: {k: v for k, v in a.items() if k in ("a", "w")}
+            ans = driver.ask({"op": "indep", "cfg": model_cfg(base), "pairs": [[strip(a), strip(b)] for a, b, _ in pairs]})
+            bad = [(a["a"], b["a"]) for (a, b, r), m_ in zip(pairs, ans["indep"]) if bool(r) != bool(m_)]
+            if bad:
+                agg["fails"].append(F("A", "the harness' independence table differs from Coba.C08.indep on %s" % bad[:5], "A:indep-table"))
+        agg["tags"] = [t for t in agg["tags"] if not t.startswith("mode:")] + [
+            "mode:por", "por:runs:%s" % ("<100" if runs < 100 else "<1000" if runs < 1000 else "<10000" if runs < 10000 else "10000+")] + (
+            ["por:complete"] if complete else ["por:budget-exhausted"])
+        agg["nontrivial"] = True
+        agg.setdefault("impl", {}).update({"por_runs": runs, "por_pruned": pruned, "por_complete": complete})
+        return agg
+
     def evaluate_dfs(self, case, driver):
         """bounded depth-first enumeration of the schedules of one small configuration"""
+        if case.get("por"):
+            return self.evaluate_por(case, driver)
         budget, depth = case.get("budget", 40), case.get("depth", 12)
         prefix = []
         runs = 0
